@@ -53,6 +53,10 @@ func (s *Speller) feat(f string) { s.Features[f]++ }
 
 var commentBodies = []string{" note", " rule = 'x'", " }{ ][ \"", "", " é日", " a / b"}
 
+// blockBodies: what a block comment may hold besides the bodies above - stars before the
+// closing one ( /** doc **/ , /***/ ), a lone slash, a star followed by a blank, line breaks.
+var blockBodies = append(append([]string{}, commentBodies...), "*", "* doc *", " x *", "**", " a * b ", " / ", "* /", "\n * line\n ", "*\n*", "/", "* x = 'y' *")
+
 // ws writes optional white space / comments where the grammar allows `__`.
 // need = at least one separating character is required.
 func (s *Speller) ws(need bool) {
@@ -82,8 +86,12 @@ func (s *Speller) ws(need bool) {
 	default:
 		switch s.u(3, "comment") {
 		case 0:
-			s.w(" /*" + Pick(s.t, commentBodies, "cbody") + "*/ ")
+			b := Pick(s.t, blockBodies, "bbody")
+			s.w(" /*" + b + "*/ ")
 			s.feat("block_comment")
+			if strings.HasSuffix(b, "*") {
+				s.feat("block_comment_ending_in_stars")
+			}
 		case 1:
 			s.w(" //" + strings.TrimPrefix(Pick(s.t, commentBodies, "cbody"), "{") + "\n")
 			s.feat("line_comment")
@@ -127,7 +135,7 @@ func (s *Speller) eos(last bool) {
 		s.feat("eof_terminator")
 		// EOF terminates the rule
 	case k == 4:
-		s.w(" /* x */\n")
+		s.w(Pick(s.t, []string{" /* x */\n", " /** x **/\n", " /***/\n", " /* x */ // y\n", " /* a * b */\n"}, "eosblock"))
 		s.feat("block_comment")
 	default:
 		s.w("\n")
@@ -382,6 +390,8 @@ var actionBodies = []string{
 	"{ if true { return 1, nil }; return \"}\", nil }",
 	"{ // } a brace in a comment\n return '{', nil }",
 	"{ /* { */ return nil, nil }",
+	"{ /** { **/ return nil, nil }",
+	"{ /***/ return 1 * 2, nil /* } * } **/ }",
 	"{ s := `}`; _ = s; return nil, nil }",
 	"{ return \"\\\\\", nil }",
 	"{ sep, end := \"\\\\\", \"}\"; _, _ = sep, end; return nil, nil }",
